@@ -446,6 +446,12 @@ func (a *Act) applyContract(st *State, con *Contract, f *ssa.Function, sig *type
 		post.vars[k] = v
 	}
 	bindResults(post.vars, res, sig)
+	// The post-state's allocation watermark lies at or above the pre-state's: objects the callee allocated (fresh(x):
+	// base(x) above the pre-state watermark) are below the new one. The watermark must move BEFORE the ensures are
+	// evaluated: values they read from the heap get the fact base(x) <= watermark, and with the pre-state watermark that
+	// contradicted fresh(x) for every element of a returned map or slice (making the rest of the path vacuous).
+	a.bumpTop(st, res)
+	prePrefix := len(vc.asserts)
 	enss := append(append(append([]*Clause(nil), con.Represents...), con.Establishes...), con.Ensures...)
 	if icon != nil {
 		bindResults(ivars, res, sig)
@@ -465,7 +471,10 @@ func (a *Act) applyContract(st *State, con *Contract, f *ssa.Function, sig *type
 	for _, c := range con.Assumes {
 		vc.noteAssumed("callee " + shortName(key) + " is verified under an assumption not checked here: " + c.Label + ": " + c.Text)
 	}
-	a.bumpTop(st, res)
+	// vacuity guard per call site: assuming the callee's ensures must not make a feasible path infeasible
+	if len(enss) > 0 && len(con.PanicsIf) == 0 && con.Opts["noreturn"] == "" {
+		vc.coverStep(a.oblName("call-keeps-path "+shortName(key)), a.props, a.pos(pos), st.guard, "the ensures of "+shortName(key)+" are consistent with the path (no vacuity after the call)", prePrefix)
+	}
 	return res
 }
 
